@@ -21,7 +21,7 @@ EXIT_OK, EXIT_VIOLATION, EXIT_MACHINERY = 0, 1, 2
 MAX_REPORTED = 12  # violation signatures re-checked and reported per run (the rest are counted)
 
 
-def build(quiet=True):
+def build(quiet=True, bins=("pworker",)):
     """rebuilds the harness (and with it /repo's lib, hooks on) from the working tree"""
     os.makedirs(pool.WORK, exist_ok=True)
     env = dict(os.environ)
@@ -32,7 +32,13 @@ def build(quiet=True):
         import shutil
         shutil.copy("/repo/Cargo.lock", lock)
     t0 = time.time()
-    p = subprocess.run(["cargo", "build", "--release", "--offline", "--bins"],
+    cmd = ["cargo", "build", "--release", "--offline"]
+    if bins:
+        for b in bins:
+            cmd += ["--bin", b]
+    else:
+        cmd += ["--bins"]
+    p = subprocess.run(cmd,
                        cwd=os.path.join(ROOT, "harness"), env=env,
                        stdout=subprocess.PIPE, stderr=subprocess.STDOUT)
     if p.returncode != 0:
@@ -112,7 +118,7 @@ def run(prop, tier, replay=None, nproc=None, do_build=True):
     except ImportError as e:
         print("MACHINERY: no module for %s: %s" % (prop, e))
         return EXIT_MACHINERY
-    if do_build and not build():
+    if do_build and not build(bins=tuple(getattr(mod, "BINS", ("pworker",)))):
         return EXIT_MACHINERY
 
     wkwargs = getattr(mod, "WORKER_KWARGS", {})
